@@ -175,10 +175,11 @@ func parent(ck *checks.Check, tier string, dl time.Duration) int {
 		return 2
 	}
 
-	// A hang is a violation of the termination clause of C10 / the deadlock
-	// clause of C16 only; for every other property the check cannot decide.
+	// A call that does not return violates the termination clause of C10 (encoders), the deadlock
+	// clause of C16, and the properties of the utilities (C09 Scale, C17, C18) that no other
+	// property covers; for the remaining properties the check cannot decide (C10 does).
 	if total.Hang != nil {
-		if ck.ID == "C10" || ck.ID == "C16" {
+		if ck.ID == "C10" || ck.ID == "C16" || ck.ID == "C09" || ck.ID == "C17" || ck.ID == "C18" {
 			h := *total.Hang
 			h.Q = strconv.Quote(string(h.S))
 			total.Add(core.Finding{Prop: ck.ID, Case: h, Key: h.Key(), Msg: fmt.Sprintf("call did not return within %v", checks.HangLimit)})
